@@ -968,7 +968,14 @@ fn packet_count(rng: &mut Rng, tier: Tier) -> usize {
         0 => 0,
         1 => 1,
         2 => *rng.pick(&[99usize, 100, 101, 199, 200, 201, 300]),
-        3 if tier == Tier::Thorough => rng.range(1000, 20_000) as usize,
+        // (large streams are expensive: most between 1000 and 3000 packets, 1 in 8 up to 20000)
+        3 if tier == Tier::Thorough => {
+            if rng.chance(1, 8) {
+                rng.range(3000, 20_000) as usize
+            } else {
+                rng.range(1000, 3000) as usize
+            }
+        }
         _ => rng.range(2, 260) as usize,
     }
 }
@@ -1805,6 +1812,9 @@ impl Scenario for PayloadCut {
                 cfg.data_format = if rng.chance(1, 3) { 0 } else { 2 };
                 cfg.data_pages = (2, 4);
                 cfg.p_split = 600;
+                // no calibration words: a CDW index sequence that began inside the skipped payload makes
+                // the next packet non-conforming when judged from the initial state ([E81] is then right)
+                cfg.p_cdw = 0;
                 cfg.data_words = (2, 20);
                 cfg.hbfs = (2, 4);
                 let mut st = gen_conforming(&cfg, &mut rng);
